@@ -274,6 +274,36 @@ def images_canonical(sym, n, perm, cell_perm, dumps):
     sym.check("sorted-keys-indent-4", canonical_json(sym, texts[0]))
 
 
+def images_caller_lists(sym, other_first):
+    """caller-ordered lists are content: the additional variants of a unified image are written in the caller's order, whatever
+    else the manifest holds and whatever was added before or after"""
+    im = Images()
+    fill_compose(im)
+    uni = make_image(im, sym.str("path0", 2, minlen=1), 0, sym.str("sum0", 2))
+    uni.unified = True
+    uni.additional_variants = ["Workstation", "Client", "Server"]          # not in sorted order
+    other = make_image(im, sym.str("path1", 2, minlen=1), 1, sym.str("sum1", 2))
+    sym.assume(uni.path != other.path)
+    try:
+        if other_first:
+            im.add("Everything", "x86_64", other)
+        for variant in ("Everything", "Client"):
+            im.add(variant, "x86_64", uni)
+        if not other_first:
+            im.add("Everything", "x86_64", other)
+        text = im.dumps()
+    except ValueError:
+        return
+    sym.cover("built")
+    doc = json.loads(text)
+    for variant in ("Everything", "Client"):
+        for entry in doc["payload"]["images"][variant]["x86_64"]:
+            if entry.get("unified"):
+                sym.check("additional-variants-in-the-callers-order[%s]" % variant, entry["additional_variants"] == ["Workstation", "Client", "Server"])
+    sym.check("callers-list-untouched", uni.additional_variants == ["Workstation", "Client", "Server"])
+    sym.check("second-dump-identical", im.dumps() == text)
+
+
 # ---------------------------------------------------------------------------------------------------
 
 RPM_CALLS = [
@@ -437,6 +467,8 @@ def jobs(tier, seed):
     for pi in (range(6) if big else [(seed) % 6, (seed + 3) % 6]):
         out.append({"harness": "treeinfo_canonical", "params": {"vperm": PERMS3[pi], "iperm": PERMS3[(pi + 2) % 6], "cperm": PERMS3[(pi + 4) % 6], "dumps": 2}})
         out.append({"harness": "treeinfo_canonical", "params": {"vperm": PERMS3[pi], "iperm": PERMS3[(pi + 1) % 6], "cperm": PERMS3[(pi + 3) % 6], "dumps": 2, "name_set": 1}})
+    for other_first in (False, True):
+        out.append({"harness": "images_caller_lists", "params": {"other_first": other_first}})
     for primed_by in ("dump", "load"):
         for how in ("in-place", "assign"):
             out.append({"harness": "composeinfo_edited", "params": {"primed_by": primed_by, "how": how}})
@@ -448,7 +480,7 @@ def jobs(tier, seed):
 
 
 META = {
-    "expected_covers": {"composeinfo_edited": ["primed", "built"], "images_edited": ["primed", "built"], "treeinfo_edited": ["primed", "built"], "treeinfo_canonical": ["built"], "composeinfo_canonical": ["built"], "images_canonical": ["built"], "rpms_canonical": ["built"], "modules_canonical": ["built"],
+    "expected_covers": {"images_caller_lists": ["built"], "composeinfo_edited": ["primed", "built"], "images_edited": ["primed", "built"], "treeinfo_edited": ["primed", "built"], "treeinfo_canonical": ["built"], "composeinfo_canonical": ["built"], "images_canonical": ["built"], "rpms_canonical": ["built"], "modules_canonical": ["built"],
                         "extra_canonical": ["built"]},
     "assumptions": [
         "content symbolic (names, paths, checksums, tags), the construction order a permutation given per job (all 24/6 in the thorough tier), "
